@@ -18,6 +18,38 @@ theorem reject_atomic (g : Group) (a : Args) (e : PyErr) (h : (writeMain g a).2 
     · simp [hv, hs] at h
     · simp [hs]
 
+/-- An ancillary pair offered for reuse whose two matrices do not have the same shape (e.g. Values describing
+    another number of dimensions than Indices) is refused on either side, whatever else the arguments are, and -
+    by `reject_atomic` - nothing has been created when it is. -/
+theorem malformed_reuse_rejected (g : Group) (a : Args)
+    (h : (∃ b s, a.pos = .reuseBad b s) ∨ (∃ b s, a.spec = .reuseBad b s)) :
+    (∃ e, (writeMain g a).2 = .error e) ∧ (writeMain g a).1 = g := by
+  have herr : ∃ e, (writeMain g a).2 = .error e := by
+    cases hr : (writeMain g a).2 with
+    | error e => exact ⟨e, rfl⟩
+    | ok u =>
+      exfalso
+      unfold writeMain at hr
+      cases hv : validateAll g a with
+      | error e' => simp [hv] at hr
+      | ok u' =>
+        unfold validateAll at hv
+        simp only [bind, Except.bind, pure, Except.pure, throw, throwThe, MonadExceptOf.throw] at hv
+        rcases h with ⟨b, s, hb⟩ | ⟨b, s, hb⟩
+        · rw [hb] at hv
+          simp only [validateSide] at hv
+          split at hv <;> try cases hv
+          split at hv <;> try cases hv
+          split at hv <;> cases hv
+        · rw [hb] at hv
+          simp only [validateSide] at hv
+          split at hv <;> try cases hv
+          split at hv <;> try cases hv
+          split at hv <;> try cases hv
+          split at hv <;> cases hv
+  obtain ⟨e, he⟩ := herr
+  exact ⟨⟨e, he⟩, reject_atomic g a e he⟩
+
 theorem validateAll_ok (g : Group) (a : Args) (h : validateAll g a = .ok ()) :
     a.groupOk = true ∧ a.stringsOk = true ∧ validateData a = .ok () ∧
     validateSide g a.pos a.posPrefix a.n = .ok () ∧ validateSide g a.spec a.specPrefix a.m = .ok () ∧
